@@ -1,7 +1,8 @@
 /-
 The crash protocol (AslModel/Crash.lean) with all quirks off on *flat* skeletons: sequences of Task visits (with
 retries), plain steps, Waits and Parallel / Map states (without MaxConcurrency) whose branches are such sequences —
-any number of branches, any number of fan-out states one after the other.  Crashes between handler invocations.
+any number of branches, any number of fan-out states one after the other.  A MaxConcurrency is admitted when it is at least the number of
+branches (one batch).  Crashes between handler invocations.
 
 `PInv N c`: the reachable configurations (durable part, engine's memory, the shape of the event queue — one top-level
 event, or the events of the branches of ONE fan-out attempt, one per branch —, the join, the conservation laws).
@@ -19,12 +20,12 @@ def Sk.flat : Sk → Bool
   | .task _ r => r.flat
   | .step r => r.flat
   | .wait r => r.flat
-  | .par mc brs r => mc == 0 && brs.allSeq && r.flat
+  | .par mc brs r => (mc == 0 || decide (brs.toList.length ≤ mc)) && brs.allSeq && r.flat
   | _ => false
 
 def Frame.width (f : Frame) : Nat := f.branches.toList.length
 
-def Frame.wf (f : Frame) : Bool := f.mc == 0 && f.branches.allSeq && f.rest.flat && decide (f.idx < f.width)
+def Frame.wf (f : Frame) : Bool := (f.mc == 0 || decide (f.width ≤ f.mc)) && f.branches.allSeq && f.rest.flat && decide (f.idx < f.width)
 
 def flatKind : EvKind → Bool
   | .visit t [] _ none => t.flat
